@@ -51,9 +51,12 @@ CHECKS = {
             "(converter) the text of whatever the visitor emits is the reading-order text, strip_empty and collapse keep text, the writer's output lexes back to it; "
             "(end to end, C01_end_to_end) for every source and options whose style map in force has no `!`, no :separator and plain names, the text of the HTML convert_to_html returns "
             "= rendering of the body's live items ([k] at the k-th note reference) ++ notes ++ comments, the notes being those the body references, in order. "
+            "(raw text, C01_raw_text) for every source whose body is in the domain and has no vertical-merge continuation cells, extract_raw_text returns exactly the expansion of the body's live items with "
+            "the END of every logical paragraph marked (Proofs/RawSpec.v): characters as they are, tab elements as the character 9, references nothing, every paragraph end exactly two newlines, placed after the paragraph's own "
+            "content and before the text-box paragraphs that follow it; forgetting the marks gives the same live items the HTML theorem speaks of (C01_raw_text_same_body). "
             "The statements are also evaluated in Coq on every generated package, and an independent Python live-text function is compared with the implementation's output.",
             BASE_NOTE + "Domain of the reader theorem: a deleted paragraph mark is directly followed by a paragraph in the same container; vertical-merge continuation cells hold only their properties and empty paragraphs. "
-            "With `!` mappings (text allowed to disappear) the converter half is the walk specification (C01_element_text); extract_raw_text's paragraph separators are covered by correspondence and the oracle.",
+            "With `!` mappings (text allowed to disappear) the converter half is the walk specification (C01_element_text); extract_raw_text on tables with vertically merged cells (whether the empty paragraph of a continuation cell contributes its two newlines depends on the tiling) is covered by correspondence and the oracle.",
             "DESIGN.md §5 C01, §15"),
     "C03": ("proof",
             "Coq proof of the decision rules (first match, concatenation order, matcher iff-specs) + end-to-end correspondence with marker-class oracle",
@@ -78,7 +81,10 @@ CHECKS = {
     "C10": ("proof",
             "Coq proofs of link-target rules, the HYPERLINK regex capture (over the regex regenerated from source), note numbering and notes-list shape + end-to-end correspondence + href oracle",
             "Theorems: replace_fragment; for the instruction regex read from the source (shape checked by computation) the captured href is exactly the quoted target whatever switches follow; "
-            "the k-th note reference is labelled [k] with ids derived from (type,id); the notes list has one li per reference in order with matching id and back-link; ids are prefixed. "
+            "the k-th note reference is labelled [k] with ids derived from (type,id); the notes list has one li per reference in order with matching id and back-link; ids are prefixed; "
+            "(C10_note_links_resolve, C10_bookmarks_have_ids) in the forest convert returns - after strip_empty and collapse - every note reference the conversion reaches has its own id, an href to the note's id, the note's id "
+            "and the back-link's href to the reference, and every bookmark not under a `!` mapping has an element with id = id_prefix ++ name (collapse keeps the set of ids and hrefs because it joins only elements with identical "
+            "attributes; strip_empty keeps the attributes of exactly the nodes it keeps). The statement is also evaluated in Coq on every generated package. "
             "Oracle: every href in the output is a link target of the document or resolves to an id.",
             BASE_NOTE, "DESIGN.md §5 C10"),
     "C11": ("proof",
